@@ -431,15 +431,48 @@ class Check(common.Check):
             case['raise'] = sorted(set(rng.randrange(nfid) for _ in range(rng.randrange(1, 3))))
         return case
 
+    def g_hist_udp(self, rng):
+        """history whose datagrams travel from a plain socket through the library's own UDP receive loop:
+        zero-length and other malformed datagrams in between, each followed (sooner or later) by a
+        well-formed message for a registered path — whatever arrives, the interface keeps receiving"""
+        c = self.g_hist(rng)
+        paths = [op[3] if op[3].startswith('/') else '/' + op[3] for op in c['ops'] if op[0] == 'new'] or ['/a']
+        ops = []
+        for op in c['ops']:
+            op = list(op)
+            if op[0] == 'new':
+                if op[4] is not None:
+                    op[4] = [op[4][0], None]
+                op[5] = None
+            elif op[0] == 'recv':
+                op[3] = 57120; op[5] = [IP, 5000]
+            ops.append(op)
+        good = lambda: ['recv', float(100.75).hex(), 0, 57120, enc_msg(rng.choice(paths), self.g_args(rng)).hex(),
+                        [IP, 5000], 'strict']
+        bad = lambda: ['recv', float(100.75).hex(), 0, 57120,
+                       rng.choice([b'', b'', b'', b'\x00', b'\x00\x00\x00\x00', b'#bundle\x00', b'/x', b',',
+                                   b'#bundle\x00' + b'\x00' * 8 + b'\xff\xff\xff\xfc']).hex(), [IP, 5000], 'nothing']
+        for _ in range(rng.randrange(1, 4)):
+            k = rng.randrange(len(ops) // 2, len(ops) + 1)
+            ops[k:k] = [bad() for _ in range(rng.randrange(1, 3))] + [good()]
+        ops.append(good())
+        c['ops'] = ops
+        c['udp'] = True
+        return c
+
     def g_sysact(self, rng):
         ops, scripts = [], {}
         for a in range(4):
             if rng.random() < 0.3:
                 scripts[str(a)] = [rng.choice([['remove', rng.randrange(4)], ['add', rng.randrange(5), [rng.randrange(9)]],
                                                ['removeall']]) for _ in range(rng.randrange(1, 3))]
+        cmd = rng.random() < 0.5                                  # a CmdPeriod registry: do_once available
+        nonce = 0
         for _ in range(rng.randrange(2, 14)):
             r = rng.random()
-            if r < 0.5:
+            if cmd and r < 0.3:                                   # several do_once pending at the same time
+                ops.append(['once', 100 + nonce, [rng.randrange(9)]]); nonce += 1
+            elif r < 0.5:
                 ops.append(['add', rng.randrange(5), [rng.randrange(9)]])
             elif r < 0.7:
                 ops.append(['remove', rng.randrange(5)])
@@ -448,6 +481,9 @@ class Check(common.Check):
             else:
                 ops.append(['run'])
         ops.append(['run'])
+        if cmd:
+            ops.append(['run'])                                   # do_once actions never again
+            return {'k': 'sysact', 'ops': ops, 'scripts': scripts, 'cmd': True}
         return {'k': 'sysact', 'ops': ops, 'scripts': scripts}
 
     def g_srvact(self, rng):
@@ -503,8 +539,10 @@ class Check(common.Check):
         if r < 0.45:
             hexd, tag = self.g_dgram(rng)
             return {'k': 'dec', 'hex': hexd, 'tag': tag}
-        if r < 0.85:
+        if r < 0.81:
             return self.g_hist(rng)
+        if r < 0.85:
+            return self.g_hist_udp(rng)
         if r < 0.91:
             return self.g_sysact(rng)
         if r < 0.96:
@@ -790,6 +828,11 @@ class Check(common.Check):
             if out in ('HANG',) or out.startswith('ESCAPED'):
                 return {'what': f'op #{i} {k}: {out} — the datagram stalled or raised into the receiver',
                         'signature': 'c18:receiver-' + out.split()[0].lower(), 'index': i}
+            if out.startswith('DEAD'):
+                return {'what': f'op #{i}: a datagram sent from a plain UDP socket after {sum(1 for q in c["ops"][:i] if q[0] == "recv")} '
+                                f'earlier datagrams (the last of them: {next((q[4] for q in reversed(c["ops"][:i]) if q[0] == "recv"), None)!r}) '
+                                f'(or this one: {op[4]!r}) was never processed — the interface stopped receiving although it was not stopped',
+                        'signature': 'c18:receiver-dead', 'index': i}
             if k == 'new':
                 _, rid, kind, path, src, port, tmpl, fid = op
                 if not path.startswith('/'):
@@ -1034,6 +1077,8 @@ class Check(common.Check):
                 for a in list(reg):
                     if a in reg:
                         log.append(f'{a}({reg[a]})')
+                        if a >= 100:                              # a do_once registration: once, then never again
+                            del reg[a]
                         for s in scripts.get(str(a), []):
                             self.sys_apply(reg, s)
                 want = ('run ' + ' '.join(log))
@@ -1046,7 +1091,7 @@ class Check(common.Check):
 
     @staticmethod
     def sys_apply(reg, op):
-        if op[0] == 'add':
+        if op[0] in ('add', 'once'):
             reg[op[1]] = op[2][0]
         elif op[0] == 'remove':
             reg.pop(op[1], None)
@@ -1147,6 +1192,6 @@ Check.THEOREMS = ['Sc3Verif.C18.' + t for t in (
     'fullmatch_iff_language', 'match_iff_language', 'malformed_matches_nothing', 'literal_matches_only_itself', 'wildcard_pattern_language',
     'dispatch_refines', 'dispatch_refines_state', 'dispatch_exact', 'dispatch_matching', 'only_enabled_fire', 'oneshot_fires_once',
     'malformed_no_dispatch', 'decoder_total', 'negative_element_size_rejected',
-    'registry_runs_current', 'registry_runs_subsequence', 'registry_add_order', 'registry_remove_removes',
+    'registry_runs_current', 'registry_runs_subsequence', 'registry_add_order', 'registry_remove_removes', 'registry_do_once',
     'server_action_remove_removes', 'server_action_run', 'notification_notify',
     'notification_center_notify', 'notification_unregister_local')]
